@@ -199,6 +199,48 @@ def run(ctx, report):
     else:
         R3.violation('getdstflow', 'getdstflow:' + detail, 'direct destination is not (offset + l + imm) & tab_max_uint[opmode]: %s' % detail,
                      where(arch, fn))
+    # getdstflow is total over the units that carry the destination-flow attribute: an instruction with more (or
+    # fewer) than one operand must be returned by a special case before the `len(self.arg) != 1` rejection
+    from ..consteval import Evaluator as _Ev, Obj as _Obj, Native as _Nat, NotConst as _NC, _Return as _Ret
+    from .c01 import model_sig
+    n_multi = 0
+    seen_units = set()
+    X = M
+    for key, cells in X.units().items():
+        for c in cells:
+            if not c.modifs.get(E['dtf']) or c.modifs.get(E['mmx']):
+                continue
+            nargs = len(model_sig(X, c))
+            if nargs == 1 or (c.name, nargs) in seen_units:
+                continue
+            seen_units.add((c.name, nargs))
+            n_multi += 1
+            me = _Obj('self')
+            mm_ = _Obj('m')
+            mm_.name = c.name
+            me.m = mm_
+            me.arg = [{'operand': k} for k in range(nargs)]
+            me.offset, me.l, me.opmode = 0, 7, X.afs.u32
+            scope = {'self': me, 'x86_afs': X.afs, 'is_imm': _Nat(lambda d: True), 'tab_max_uint': {}, 'len': _Nat(len)}
+            ev_ = _Ev({})
+            ev_.env = scope
+            inst = 'getdstflow:%s with %d operands' % (c.name, nargs)
+            try:
+                ev_.exec_stmts(fn.body, scope)
+                R3.violation(inst, 'getdstflow:arity:%s:%d' % (c.name, nargs), 'getdstflow falls through without a result for %s' % inst, where(arch, fn))
+            except _Ret as r:
+                if isinstance(r.v, list) and len(r.v) == 1 and r.v[0] is me.arg[0]:
+                    R3.ok(inst, sample='%s: destination is its first operand' % inst)
+                else:
+                    R3.violation(inst, 'getdstflow:arity:%s:%d:value' % (c.name, nargs), '%s returns %r' % (inst, r.v), where(arch, fn))
+            except _NC as e:
+                if 'Raise' in str(e):
+                    R3.violation(inst, 'getdstflow:arity:%s:%d' % (c.name, nargs), 'the opcode table gives %s (%d operands) the destination-flow attribute, but getdstflow raises for every '
+                                 'instruction that does not have exactly one operand' % (c.name, nargs), where(arch, fn), witness='dis(9a 78 56 34 12 34 12).getdstflow() raises ValueError')
+                else:
+                    raise AnalysisError('getdstflow outside the evaluable subset: %s' % e)
+    if n_multi < 2:
+        raise AnalysisError('expected the far jump and far call units among the destination-flow units, found %d' % n_multi)
     tmu = E.get('tab_max_uint')
     want = {E['u08']: 0xFF, E['u16']: 0xFFFF, E['u32']: 0xFFFFFFFF}
     if isinstance(tmu, dict) and all(tmu.get(k) == v for k, v in want.items()):
@@ -227,6 +269,7 @@ def run(ctx, report):
 
 
 MUTANTS = [
+    ('dstflow-farcall-raises', 'miasmx/arch/ia32_arch.py', '        if self.m.name == "jmpf" or \\\n                (self.m.name == "call" and len(self.arg) == 2):', '        if self.m.name == "jmpf":', 'C17.D3'),
     ('hlt-noflow', 'miasmx/arch/ia32_arch.py',
      'addop("hlt",   [0xF4],             noafs, no_rm         , {}                 ,{}                , {bkf:True}                  )',
      'addop("hlt",   [0xF4],             noafs, no_rm         , {}                 ,{}                , {}                  )', 'C17.D1'),
